@@ -1,6 +1,30 @@
 import Rtcm.Model.Bias
+import Rtcm.Proofs.BiasLaws
+import Rtcm.Proofs.Bias1230Laws
+import Rtcm.Model.Interp
+import Rtcm.Gen.SigTables
 /-!
 # C16  SSR code-bias and GLONASS bias lists keep every entry or report an error
+
+"Encoding a code-bias message (1059, 1065) or a GLONASS code-phase bias message (1230) whose
+entries all carry recognised, distinct signals either fails with an error or yields a frame that
+decodes to exactly the same multiset of (satellite, signal, bias on its grid) entries, grouped by
+ascending satellite; no entry is silently dropped, duplicated or lost to a count field that
+wrapped. Decoding any such frame never yields more entries than the list capacity."
+
+Subject: `Rtcm.Bias.encode` / `decode` (1059, 1065), `encode1230` / `decode1230` (Model/Bias.lean).
+
+Vocabulary (Proofs/CurLaws.lean, Proofs/BiasLaws.lean):
+* `Good c`: every buffer byte `< 256`.  `Ext c c'`: same buffer length, bytes stay bytes,
+  `c.off ≤ c'.off ≤ 8 * length`, every bit outside `[c.off, c'.off)` unchanged.
+* `ParamsOk p`: `1 ≤ satBits ≤ 8`, `maxSat < 2^satBits`, `checkSatNum ∨ maxSat < 63`, and the
+  signal table has pairwise distinct identifiers, all `< 32` (`TblOk`).  Holds for the two
+  parameter sets the crate uses (`params_ok_1059`, `params_ok_1065`).
+* `norm14 e`: `e` with `bias` replaced by what the wire carries: the bias quantised to 0.01 m as
+  an `i16` (`quantBias`), CUT TO THE 14-BIT FIELD (low 14 bits, sign-extended: `wire14`), times
+  0.01 (`dequantBias`).  `normalise e`: the same without the cut.  They coincide when the
+  quantised integer is in `-8192 ..= 8191` (`Fits14`, i.e. |bias| ≤ 81.91 m);
+  see `bias_14bit_wraps` for a concrete entry outside that range.
 -/
 namespace Rtcm.C16
 open Rtcm.Bias
@@ -50,5 +74,352 @@ theorem bias_decode_le_cap (cfg : Cfg) (p : Params) (c : Cur) (es : List Entry) 
   · exact decSats_len cfg p _ [] _ _ _ (by simp) h
   · cases h
   · cases h
+
+/-! ## Encode side (1059 / 1065) -/
+
+open Rtcm.CurLaws Rtcm.BiasLaws Rtcm.Bits
+
+/-- entry's signal is in the table -/
+def recognised (p : Params) (e : Entry) : Bool := (Sig.toId p.tbl e.band e.attr).isSome
+
+theorem tblOk_1059 : TblOk Gen.biasTable_df_msg1059_biases :=
+  ⟨by decide, by decide⟩
+theorem tblOk_1065 : TblOk Gen.biasTable_df_msg1065_biases :=
+  ⟨by decide, by decide⟩
+
+/-- the parameter sets of the crate satisfy the standing hypotheses -/
+theorem params_ok_1059 (cap : Nat) :
+    ParamsOk (Interp.params1059 cap Gen.biasTable_df_msg1059_biases) :=
+  ⟨by simp [Interp.params1059], by simp [Interp.params1059], by simp [Interp.params1059],
+    Or.inl rfl, tblOk_1059⟩
+theorem params_ok_1065 (cap : Nat) :
+    ParamsOk (Interp.params1065 cap Gen.biasTable_df_msg1065_biases) :=
+  ⟨by simp [Interp.params1065], by simp [Interp.params1065], by simp [Interp.params1065],
+    Or.inr (by simp [Interp.params1065]), tblOk_1065⟩
+
+/-- (a) No count field wraps silently: if encoding succeeds then every satellite identifier is
+within range, the number of distinct satellites fits the 6-bit field (≤ 63) and every satellite
+has at most 31 recognised entries (fits the 5-bit field).  No hypothesis on the signals or the
+buffer. -/
+theorem bias_no_silent_loss (cfg : Cfg) (p : Params) (hsn : p.checkSatNum = true ∨ p.maxSat < 63)
+    (v : List Entry) (c c' : Cur) (h : encode cfg p v c = .ok c') :
+    (∀ e ∈ v, e.sat ≤ p.maxSat) ∧ (satsOf p v).length ≤ 63 ∧
+    ∀ s, ((v.filter fun e => e.sat == s).filter (recognised p)).length ≤ 31 := by
+  unfold encode at h
+  split at h
+  · cases h
+  · next hcs =>
+    simp only [Bool.not_eq_true', Bool.not_eq_false] at hcs
+    have hsat := (checkSats_iff p v).mp hcs
+    dsimp only at h
+    split at h
+    · cases h
+    · next hn =>
+      refine ⟨hsat, ?_, ?_⟩
+      · have hl := satsOf_length_le p v
+        rcases hsn with hc | hm
+        · simp only [hc, Bool.true_and, decide_eq_true_eq] at hn
+          omega
+        · omega
+      · intro s
+        split at h
+        · next c1 _ =>
+          by_cases hs : s ∈ satsOf p v
+          · exact encSats_counts cfg p v _ c1 c' h s hs
+          · have : (v.filter fun e => e.sat == s) = [] := by
+              rw [List.filter_eq_nil_iff]
+              intro e he hes
+              simp only [beq_iff_eq] at hes
+              exact hs ((mem_satsOf p v s).mpr ⟨hes ▸ hsat e he, e, he, hes⟩)
+            simp [this]
+        · cases h
+        · cases h
+
+/-- encoding never panics (either build profile): it succeeds or reports OutOfRange or
+BufferOverflow -/
+theorem bias_encode_total (cfg : Cfg) (p : Params) (hp : ParamsOk p) (v : List Entry) (c : Cur)
+    (hg : Good c) :
+    (∃ c', encode cfg p v c = .ok c') ∨ encode cfg p v c = .err .outOfRange ∨
+      encode cfg p v c = .err .bufferOverflow := by
+  unfold encode
+  split
+  · exact Or.inr (Or.inl rfl)
+  · dsimp only
+    split
+    · exact Or.inr (Or.inl rfl)
+    · next hsn =>
+      have hlt := satsOf_length_lt p hp v hsn
+      rcases putU_ok_or_overflow cfg (len := 6) (by decide) (by decide) hg hlt with ⟨c1, h1⟩ | h1
+      · obtain ⟨e1, _, _⟩ := putU_law cfg (len := 6) (by decide) (by decide) hg hlt h1
+        rw [h1]
+        exact encSats_total cfg p hp v _ c1 e1.good e1.fit
+          (fun s hs => Nat.lt_of_le_of_lt ((mem_satsOf p v s).mp hs).1 hp.maxSat)
+      · rw [h1]
+        exact Or.inr (Or.inr rfl)
+
+/-- (a), converse: a count that does not fit its field is an error, never a wrapped count -/
+theorem bias_count_overflow_is_error (cfg : Cfg) (p : Params) (hp : ParamsOk p) (v : List Entry)
+    (c : Cur) (hg : Good c)
+    (hbad : 63 < (satsOf p v).length ∨
+      ∃ s, 31 < ((v.filter fun e => e.sat == s).filter (recognised p)).length) :
+    encode cfg p v c = .err .outOfRange ∨ encode cfg p v c = .err .bufferOverflow := by
+  rcases bias_encode_total cfg p hp v c hg with ⟨c', h⟩ | h
+  · obtain ⟨_, h1, h2⟩ := bias_no_silent_loss cfg p hp.satNum v c c' h
+    rcases hbad with hb | ⟨s, hb⟩
+    · omega
+    · have := h2 s
+      omega
+  · exact h
+
+/-- more than 63 distinct satellites (1059) or an out-of-range satellite: OutOfRange whatever the
+buffer -/
+theorem bias_sat_overflow_out_of_range (cfg : Cfg) (p : Params) (v : List Entry) (c : Cur)
+    (hbad : (∃ e ∈ v, p.maxSat < e.sat) ∨ (p.checkSatNum = true ∧ 63 < (satsOf p v).length)) :
+    encode cfg p v c = .err .outOfRange := by
+  unfold encode
+  split
+  · rfl
+  · next hcs =>
+    simp only [Bool.not_eq_true', Bool.not_eq_false] at hcs
+    have hsat := (checkSats_iff p v).mp hcs
+    rcases hbad with ⟨e, he, hlt⟩ | ⟨hc, hl⟩
+    · have := hsat e he
+      omega
+    · simp [hc, hl]
+
+/-- (a), converse, sharp: with room in the buffer for the whole list (6 count bits, `satBits + 5`
+bits per satellite, 19 bits per entry) a per-satellite count above 31 is reported as OutOfRange -/
+theorem bias_count_overflow_out_of_range (cfg : Cfg) (p : Params) (hp : ParamsOk p)
+    (v : List Entry) (c : Cur) (hg : Good c)
+    (hroom : c.off + 6 + (p.satBits + 5) * (satsOf p v).length + 19 * v.length
+      ≤ 8 * c.data.length)
+    (hbad : ∃ s, 31 < ((v.filter fun e => e.sat == s).filter (recognised p)).length) :
+    encode cfg p v c = .err .outOfRange :=
+  encode_room_out_of_range cfg p hp v c hg hroom hbad
+
+/-! ## Round trip (1059 / 1065) -/
+
+/-- the decoded list: satellites ascending, original relative order inside each satellite -/
+def grouped (p : Params) (f : Entry → Entry) (v : List Entry) : List Entry :=
+  (satsOf p v).flatMap fun s => (v.filter fun e => e.sat == s).map f
+
+theorem grouped_perm (p : Params) (f : Entry → Entry) (v : List Entry)
+    (hc : ∀ e ∈ v, e.sat ≤ p.maxSat) : (grouped p f v).Perm (v.map f) := by
+  unfold grouped
+  rw [← List.map_flatMap]
+  exact (group_perm p v ((checkSats_iff p v).mpr hc)).map f
+
+theorem grouped_sorted (p : Params) (f : Entry → Entry) (hf : ∀ e, (f e).sat = e.sat)
+    (v : List Entry) : ((grouped p f v).map (·.sat)).Pairwise (· ≤ ·) := by
+  unfold grouped
+  rw [List.pairwise_map, List.pairwise_flatMap]
+  constructor
+  · intro s _
+    rw [List.pairwise_map]
+    apply List.Pairwise.imp_of_mem (R := fun _ _ => True)
+    · intro a b ha hb _
+      have h1 := (List.mem_filter.mp ha).2
+      have h2 := (List.mem_filter.mp hb).2
+      simp only [beq_iff_eq] at h1 h2
+      rw [hf, hf, h1, h2]
+      exact Nat.le_refl _
+    · exact List.pairwise_of_forall (fun _ _ => trivial)
+  · have : (satsOf p v).Pairwise (· < ·) :=
+      List.Pairwise.sublist List.filter_sublist List.pairwise_lt_range
+    refine this.imp ?_
+    intro s t hst x hx y hy
+    obtain ⟨a, ha, rfl⟩ := List.mem_map.mp hx
+    obtain ⟨b, hb, rfl⟩ := List.mem_map.mp hy
+    have h1 := (List.mem_filter.mp ha).2
+    have h2 := (List.mem_filter.mp hb).2
+    simp only [beq_iff_eq] at h1 h2
+    rw [hf, hf, h1, h2]
+    exact Nat.le_of_lt hst
+
+/-- (b) A successfully encoded 1059/1065 list decodes — from the frame the encoder produced, read
+at the offset where it started — to the same entries as they sit on the wire (`norm14`), grouped
+by ascending satellite, each group in the original relative order; the decoder stops exactly
+where the encoder stopped.  The result is a permutation of `v.map norm14`: nothing dropped,
+nothing duplicated.  The encoder changed no bit outside `[c.off, c'.off)` (`Ext`).
+
+Hypotheses actually needed: `ParamsOk p`, every signal recognised, `v.length ≤ p.cap`, buffer
+bytes `< 256`.  Distinctness of the `(sat, band, attr)` keys and of the table's descriptors is
+NOT needed (duplicates are written and read back twice). -/
+theorem bias_encode_ok_decodes_same_multiset (cfg : Cfg) (p : Params) (hp : ParamsOk p)
+    (v : List Entry) (hrec : ∀ e ∈ v, recognised p e = true) (hcap : v.length ≤ p.cap)
+    (c c' : Cur) (hg : Good c) (h : encode cfg p v c = .ok c') :
+    decode cfg p { c' with off := c.off } = .ok (grouped p norm14 v, c') ∧
+    (grouped p norm14 v).Perm (v.map norm14) ∧
+    ((grouped p norm14 v).map (·.sat)).Pairwise (· ≤ ·) ∧
+    Ext c c' := by
+  obtain ⟨hext, hdec⟩ := encode_decode cfg p hp v hrec hcap c c' hg h
+  obtain ⟨hsat, _, _⟩ := bias_no_silent_loss cfg p hp.satNum v c c' h
+  exact ⟨hdec c'.data rfl (AgreeOn.rfl' _ _ _), grouped_perm p norm14 v hsat, grouped_sorted p norm14 (fun _ => rfl) v, hext⟩
+
+/-- (b), stable under later writes: the list is read back from ANY buffer of the same length that
+agrees with the produced one on the bits `[c.off, c'.off)` the encoder wrote — so fields written
+after the list (which leave these bits alone, `Ext`) do not disturb it. -/
+theorem bias_encode_ok_decodes_stable (cfg : Cfg) (p : Params) (hp : ParamsOk p)
+    (v : List Entry) (hrec : ∀ e ∈ v, recognised p e = true) (hcap : v.length ≤ p.cap)
+    (c c' : Cur) (hg : Good c) (h : encode cfg p v c = .ok c')
+    (D : List Nat) (hD : D.length = c'.data.length) (ha : AgreeOn D c'.data c.off c'.off) :
+    decode cfg p ⟨D, c.off⟩ = .ok (grouped p norm14 v, ⟨D, c'.off⟩) :=
+  (encode_decode cfg p hp v hrec hcap c c' hg h).2 D hD ha
+
+theorem grouped_congr (p : Params) (f g : Entry → Entry) (v : List Entry)
+    (h : ∀ e ∈ v, f e = g e) : grouped p f v = grouped p g v := by
+  unfold grouped
+  congr 1
+  funext s
+  apply List.map_congr_left
+  intro e he
+  exact h e (List.mem_filter.mp he).1
+
+/-- (b) with every bias inside the 14-bit range (|bias| ≤ 81.91 m): the decoded bias is the
+bias on the 0.01 m grid, `dequantBias res001 (toInt 16 (quantBias res001 bias))`. -/
+theorem bias_encode_ok_decodes_same_multiset_on_grid (cfg : Cfg) (p : Params) (hp : ParamsOk p)
+    (v : List Entry) (hrec : ∀ e ∈ v, recognised p e = true) (hcap : v.length ≤ p.cap)
+    (hfit : ∀ e ∈ v, Fits14 e)
+    (c c' : Cur) (hg : Good c) (h : encode cfg p v c = .ok c') :
+    decode cfg p { c' with off := c.off } = .ok (grouped p normalise v, c') ∧
+    (grouped p normalise v).Perm (v.map normalise) ∧
+    ((grouped p normalise v).map (·.sat)).Pairwise (· ≤ ·) := by
+  obtain ⟨h1, h2, h3, _⟩ := bias_encode_ok_decodes_same_multiset cfg p hp v hrec hcap c c' hg h
+  have e : grouped p norm14 v = grouped p normalise v :=
+    grouped_congr p _ _ v (fun e he => norm14_of_fits e (hfit e he))
+  have e2 : v.map norm14 = v.map normalise :=
+    List.map_congr_left (fun e he => norm14_of_fits e (hfit e he))
+  rw [e] at h1 h2 h3
+  rw [e2] at h2
+  exact ⟨h1, h2, h3⟩
+
+/-! ## 1230 (GLONASS code-phase biases) -/
+
+open Rtcm.Bias1230Laws
+
+/-- the GLONASS MSM table of the crate orders 1C < 1P < 2C < 2P (ids 2, 3, 8, 9) -/
+theorem glo1230_ok : Glo1230Ok Gen.sigTable_glo :=
+  ⟨2, 3, 8, 9, by decide, by decide, by decide, by decide, by decide, by decide, by decide⟩
+
+/-- (c) A successfully encoded 1230 list whose signals are recognised (one of 1C, 1P, 2C, 2P) and
+pairwise distinct decodes to the same entries on the 0.02 m grid (`norm1230`: satellite field 0,
+`bias = dequantBias res002 (toInt16 (quantBias res002 bias))`; the field is a full 16 bits, no
+cut), in mask order: the decoded signals form a sublist of `[1C, 1P, 2C, 2P]`.  The result is a
+permutation of `v.map norm1230`; the decoder stops exactly where the encoder stopped; no bit
+outside `[c.off, c'.off)` changed. -/
+theorem bias_1230_encode_ok_decodes_same_multiset (cfg : Cfg) (t : Schema.SigTable)
+    (hg : Glo1230Ok t) (v : List Entry)
+    (hrec : ∀ e ∈ v, (e.band, e.attr) ∈ [(1, 67), (1, 80), (2, 67), (2, 80)])
+    (hnd : (v.map fun e => (e.band, e.attr)).Nodup)
+    (c c' : Cur) (hgood : Good c) (h : encode1230 cfg t v c = .ok c') :
+    ∃ out, decode1230 cfg { c' with off := c.off } = .ok (out, c') ∧
+      out.Perm (v.map norm1230) ∧
+      (out.map fun e => (e.band, e.attr)).Sublist [(1, 67), (1, 80), (2, 67), (2, 80)] ∧
+      c'.off = c.off + 4 + 16 * v.length ∧ Ext c c' := by
+  obtain ⟨hext, hoff, hdec⟩ := encode1230_decode cfg t hg v hrec hnd c c' hgood h
+  refine ⟨_, hdec c'.data rfl (AgreeOn.rfl' _ _ _), (sortBy_perm (le1230 t) v).map norm1230, ?_,
+    hoff, hext⟩
+  have := sorted_sublist t hg v hrec hnd
+  rw [List.map_map]
+  exact this
+
+/-- (c), explicit order and stability: the decoded list is, for each mask position 1C, 1P, 2C, 2P
+in this order, the entry of `v` carrying that signal (if any), normalised; and it is read back
+from ANY buffer of the same length agreeing with the produced one on `[c.off, c'.off)`. -/
+theorem bias_1230_decodes_in_mask_order (cfg : Cfg) (t : Schema.SigTable)
+    (hg : Glo1230Ok t) (v : List Entry)
+    (hrec : ∀ e ∈ v, (e.band, e.attr) ∈ [(1, 67), (1, 80), (2, 67), (2, 80)])
+    (hnd : (v.map fun e => (e.band, e.attr)).Nodup)
+    (c c' : Cur) (hgood : Good c) (h : encode1230 cfg t v c = .ok c')
+    (D : List Nat) (hD : D.length = c'.data.length) (ha : AgreeOn D c'.data c.off c'.off) :
+    decode1230 cfg ⟨D, c.off⟩ =
+      .ok (([(1, 67), (1, 80), (2, 67), (2, 80)].filterMap fun k =>
+              v.find? fun e => (e.band, e.attr) == k).map norm1230, ⟨D, c'.off⟩) := by
+  obtain ⟨_, _, hdec⟩ := encode1230_decode cfg t hg v hrec hnd c c' hgood h
+  rw [hdec D hD ha, sorted_eq_slots t hg v hrec hnd]
+  rfl
+
+/-- the 1230 encoder never panics: it succeeds, or reports InvalidSignalId (an unrecognised
+signal) or BufferOverflow -/
+theorem bias_1230_encode_total (cfg : Cfg) (t : Schema.SigTable) (v : List Entry) (c : Cur)
+    (hgood : Good c) :
+    (∃ c', encode1230 cfg t v c = .ok c') ∨ encode1230 cfg t v c = .err .invalidSignalId ∨
+      encode1230 cfg t v c = .err .bufferOverflow :=
+  encode1230_total cfg t v c hgood
+
+/-- Decoding any 1230 frame never yields more entries than the list capacity (4). -/
+theorem bias_1230_decode_le_cap (cfg : Cfg) (c : Cur) (es : List Entry) (c' : Cur)
+    (h : decode1230 cfg c = .ok (es, c')) : es.length ≤ 4 := by
+  unfold decode1230 at h
+  split at h
+  · exact dec1230Loop_length cfg _ gloTable1230 _ _ _ h
+  · cases h
+  · cases h
+
+/-! ## Concrete instances (the hypotheses are satisfiable; both build profiles) -/
+
+section examples
+
+/-- three entries, satellites 5 and 2 scattered, biases 1.5 m, -1.5 m, 100.0 m -/
+def exV : List Entry :=
+  [⟨5, 1, 67, 0x3FC00000⟩, ⟨2, 2, 87, 0xBFC00000⟩, ⟨5, 2, 67, 0x42C80000⟩]
+def exP : Params := Interp.params1059 390 Gen.biasTable_df_msg1059_biases
+def exC : Cur := ⟨List.replicate 12 0, 3⟩
+
+example : Good exC := by unfold Good; decide
+example : ∀ e ∈ exV, recognised exP e = true := by decide
+example : exV.length ≤ exP.cap := by decide
+
+/-- the encoder succeeds on the example, in both build profiles -/
+example : ∀ chk : Bool, (match encode ⟨chk⟩ exP exV exC with
+    | .ok c' => c'.data == [1, 4, 21, 254, 212, 40, 128, 4, 177, 103, 16, 0] && c'.off == 88
+    | _ => false) = true := by decide +kernel
+
+/-- theorem (b) applied to it -/
+example (cfg : Cfg) (c' : Cur) (h : encode cfg exP exV exC = .ok c') :
+    decode cfg exP { c' with off := 3 } = .ok (grouped exP norm14 exV, c') :=
+  (bias_encode_ok_decodes_same_multiset cfg exP (params_ok_1059 390) exV (by decide) (by decide)
+    exC c' (by unfold Good; decide) h).1
+
+example : grouped exP norm14 exV =
+    [⟨2, 2, 87, 0xBFC00000⟩, ⟨5, 1, 67, 0x3FC00000⟩, ⟨5, 2, 67, 0xC27F5C29⟩] := by decide +kernel
+
+example : Fits14 ⟨5, 1, 67, 0x3FC00000⟩ := by unfold Fits14; decide +kernel
+
+/-- FINDING (model and, by the differential validation, crate): the quantised bias is an `i16`
+but the field is 14 bits wide and the encoder does not range-check, so a bias outside
+±81.91 m wraps silently: 100.0 m (0x42C80000) is written as 10000 mod 2^14 and comes back as
+-63.84 m (0xC27F5C29), while its grid value is 100.0 m. -/
+theorem bias_14bit_wraps :
+    norm14 ⟨5, 2, 67, 0x42C80000⟩ = ⟨5, 2, 67, 0xC27F5C29⟩ ∧
+    normalise ⟨5, 2, 67, 0x42C80000⟩ = ⟨5, 2, 67, 0x42C80000⟩ ∧
+    toInt 16 (quantBias res001 0x42C80000) = 10000 ∧
+    toInt 16 (wire14 (quantBias res001 0x42C80000)) = -6384 := by decide +kernel
+
+/-- 64 satellites (1059): OutOfRange, not a wrapped count of 0 -/
+example (cfg : Cfg) (c : Cur) :
+    encode cfg exP ((List.range 64).map fun s => ⟨s, 1, 67, 0⟩) c = .err .outOfRange :=
+  bias_sat_overflow_out_of_range cfg exP _ c (Or.inr ⟨rfl, by decide⟩)
+
+/-- 1230: two entries out of mask order -/
+def exV1230 : List Entry := [⟨0, 2, 80, 0x3FC00000⟩, ⟨0, 1, 67, 0xBFC00000⟩]
+
+example : ∀ chk : Bool, (match encode1230 ⟨chk⟩ Gen.sigTable_glo exV1230 ⟨List.replicate 5 0, 1⟩ with
+    | .ok c' => c'.data == [79, 253, 168, 2, 88] && c'.off == 37
+    | _ => false) = true := by decide +kernel
+
+example (cfg : Cfg) (c' : Cur)
+    (h : encode1230 cfg Gen.sigTable_glo exV1230 ⟨List.replicate 5 0, 1⟩ = .ok c') :
+    ∃ out, decode1230 cfg { c' with off := 1 } = .ok (out, c') ∧
+      out.Perm (exV1230.map norm1230) ∧
+      (out.map fun e => (e.band, e.attr)).Sublist [(1, 67), (1, 80), (2, 67), (2, 80)] ∧
+      c'.off = 1 + 4 + 16 * exV1230.length ∧ Ext ⟨List.replicate 5 0, 1⟩ c' :=
+  bias_1230_encode_ok_decodes_same_multiset cfg _ glo1230_ok exV1230 (by decide) (by decide)
+    _ c' (by unfold Good; decide) h
+
+example : exV1230.map norm1230 = [⟨0, 2, 80, 0x3FC00000⟩, ⟨0, 1, 67, 0xBFC00000⟩] := by
+  decide +kernel
+
+end examples
 
 end Rtcm.C16
